@@ -121,6 +121,23 @@ def run_case(case, rng):
     case.params = dict(rep=rep, gamma=sp.gamma, n=len(sp.states), label_kind=sp.meta.get("label_kind"),
                        ghost=repr(ghost) if ghost is not None else None)
     mdp = Bd.build(sp, rep, shuffle_rng=rng)
+    if fam not in ("stray",) and rng.random() < 0.3:
+        # two models alive and used ALTERNATELY: this model's transition array is built, then another model's (other sizes,
+        # other labels), and only then this model's remaining arrays (they are compared with its own functions below)
+        other_sp = G.random_spec(rng, "any", n_max=6)
+        G.restrict_to_closure(other_sp, rng)
+        other = Bd.build(other_sp, "subclass")
+
+        def alternately():
+            mdp.transition_matrix
+            other.transition_matrix
+            other.reward_matrix
+        try:
+            alternately()
+            case.count("models_built_alternately")
+        except BaseException as e_:          # (whatever is wrong with either array is reported by the judged accesses below)
+            if type(e_).__name__ == "CaseTimeout" or isinstance(e_, (KeyboardInterrupt, SystemExit)):
+                raise
 
     expected_closure = G.closure(sp)          # absorbing states (initial ones too) not expanded
     closure_expanded_init = _closure_expand_initial_absorbing(sp)
